@@ -301,8 +301,17 @@ def run_file_open(prog, rep, rule):
                            'ReadOnly on a missing path: outcome %r, backend constructed: %s' % (out, bool(made)))
             elif made:
                 m = made[0]
-                rule.check(m[3] == ('e', mode), key, rep.where(fo), fo.q, 'backend receives the requested mode',
-                           'backend constructed with mode %r instead of %s' % (m[3], mode))
+                problems = []
+                if m[3] != ('e', mode):
+                    problems.append('backend constructed with mode %r instead of %s' % (m[3], mode))
+                if mode.endswith('ReadOnly') and exists is not True:
+                    problems.append('ReadOnly: a backend is constructed on a path that never established that the file exists')
+                rule.check(not problems, key, rep.where(fo), fo.q, 'backend receives the requested mode', '; '.join(problems))
+            elif not mode.endswith('ReadOnly'):
+                impl_ok = [v for k, v in assign.items() if k[0] == 'cmp']
+                rule.check(not (impl_ok and all(impl_ok)), key, rep.where(fo), fo.q,
+                           'refused only for an unknown implementation name',
+                           '%s with a known implementation is refused (%r): ReadWrite/Overwrite must create a missing file' % (mode, out))
 
 
 def run_check_header(prog, rep):
